@@ -9,7 +9,7 @@ from vlib.props.c01 import RSUN
 
 ID = 'C13'
 TITLE = 'grid restriction'
-CASES = {'quick': 300, 'thorough': 24000}
+CASES = {'quick': 450, 'thorough': 24000}
 SHARDS = {'quick': 1, 'thorough': 16}
 RULE = ('Generated: world with 1-3 molecules whose native grids are the same, nested (every 2nd/3rd point), '
         'offset by a fraction of the spacing, or independent (own start/step/length); transmission or '
@@ -23,22 +23,27 @@ ASSUMPTIONS = [
     'binning clause judged only for native spacing <= 1/4 of the widest mid-point bin (narrower than the statement, see DESIGN.md); FluxBinner with implied (mid-point) widths',
     'own-grid clause is bit-equality; foreign points must lie between the two neighbouring native values (equal to the end value outside the native range)',
 ]
-REQUIRED = {'grids:tie-for-largest': 0.04, 'obs:constant-R-wide': 0.08, 'grids:multi': 0.35, 'grids:single': 0.15, 'family:emission': 0.2, 'family:transmission': 0.2}
+REQUIRED = {'opacity:ktables': 0.15, 'grids:tie-for-largest': 0.04, 'obs:constant-R-wide': 0.08, 'grids:multi': 0.35, 'grids:single': 0.15, 'family:emission': 0.2, 'family:transmission': 0.2}
 
 
 @st.composite
 def _case(draw):
     family = draw(st.sampled_from(['transmission', 'emission']))
     n0 = draw(S.ints(12, 40))
-    kinds = draw(st.lists(st.sampled_from(['nested2', 'offset', 'offset-same-size', 'own', 'same', 'nested3']), min_size=3, max_size=3))
+    kinds = draw(st.lists(st.sampled_from(['nested2', 'warped-same-ends', 'near-same-spacing', 'offset', 'offset-same-size', 'own', 'same', 'nested3']), min_size=3, max_size=3))
     own = [[draw(st.floats(-0.2, 0.5)), draw(st.floats(0.6, 2.5)), draw(st.floats(0.3, 0.9))] for _ in range(3)]
     i0 = draw(S.ints(0, n0 - 3))
     i1 = draw(S.ints(i0 + 2, n0 - 1))
     nb = draw(S.ints(2, 6))
     obs = [draw(st.floats(0.02, 0.98)), draw(st.one_of(st.floats(0.45, 0.9), st.floats(0.1, 0.9)))]
     tp = [draw(st.floats(0.0, 1.0)), draw(st.floats(0.0, 1.0))]
+    # mostly tables in the regime where every molecule shows in the spectrum: one saturating molecule hides what happens to
+    # the others, a transparent one shows nothing
     w = draw(S.world(layers=(2, 16), nwn=(n0, n0), max_active=3, extras=('CIA', 'Rayleigh'),
-                     mags=['mixed', 'mixed', 'transparent', 'saturated']))
+                     mags=['mixed', 'mixed', 'mixed', 'transparent', 'mixed', 'saturated', 'mixed']))
+    w['ktables'] = draw(st.sampled_from([False, True, False]))
+    if w['ktables'] and draw(st.booleans()):
+        kinds = ['warped-same-ends', 'near-same-spacing', 'warped-same-ends']            # aim correlated-k worlds at look-alike grids
     if obs[1] > 0.4:
         # constant-resolving-power observations need a native grid spanning well over a factor two in wavenumber
         w['wn0'] = min(w['wn0'], w['dwn'] * n0 / 4.0)
@@ -64,6 +69,15 @@ def grids_for(case):
             grid = base[1::3]
         elif kind == 'offset':
             grid = (base + 0.37 * w['dwn'])[:-1]
+        elif kind == 'warped-same-ends':
+            # as many points and the same end points as the first molecule's grid, other interior spacing
+            t_ = (base - base[0]) / (base[-1] - base[0])
+            grid = base[0] + (base[-1] - base[0]) * (0.45 * t_ + 0.55 * t_ ** 2)
+            grid[0], grid[-1] = base[0], base[-1]
+        elif kind == 'near-same-spacing':
+            # slightly finer than the first molecule's grid and shifted: a requested sub-range often holds exactly as many
+            # of these points as requested points, at other wavenumbers
+            grid = base[0] - 0.4 * w['dwn'] + 0.96 * w['dwn'] * np.arange(n0 + 2)
         elif kind == 'offset-same-size':
             grid = base + 0.37 * w['dwn']           # as many points as the first molecule's grid: a tie for the largest
         elif kind == 'own':
@@ -90,7 +104,12 @@ def check(case):
     tag = 'multi-grid' if multi else 'single-grid'
     kw = {'ngauss': case['ngauss']} if family == 'emission' else {}
     try:
-        W = cut(out, 'build-world', synth.build_world, w, wn_per_mol={m: g for m, (k, g) in grids.items()})
+        # a third of the worlds run in correlated-k mode (two quadrature points): restriction must not matter there either
+        kmode = bool(w.get('ktables'))
+        if kmode:
+            out.cls('opacity:ktables')
+        W = cut(out, 'build-world', synth.build_world, w, ktables=kmode, kweights=[0.35, 0.65] if kmode else None,
+                wn_per_mol={m: g for m, (k, g) in grids.items()})
         m = cut(out, 'build-model', synth.make_model, W, family, None, **kw)
         with np.errstate(all='ignore'):
             full = cut(out, 'model', m.model)
@@ -198,7 +217,7 @@ def check(case):
     Tq = 150.0 + case['tp'][0] * 2500.0
     Pq = 10.0 ** (-2.0 + case['tp'][1] * 9.0)
     try:
-        for mol, (kind, own) in grids.items():
+        for mol, (kind, own) in (grids.items() if not w.get('ktables') else []):
             op = OpacityCache()[mol]
             with np.errstate(all='ignore'):
                 allv = np.asarray(cut(out, 'opacity', op.opacity, Tq, Pq), dtype=float)
